@@ -238,8 +238,10 @@ def run_check(modname, tier, seed, jobs=None):
         "wall_s": round(wall, 3),
         "violations": len(new_violation_lines),
     }
-    os.makedirs(os.path.join(VERIF, "evidence"), exist_ok=True)
-    with open(os.path.join(VERIF, "evidence", f"{pid}.json"), "w") as f:
+    # runs against a scratch copy of the repository (seeded changes, refactors) may divert their evidence
+    evdir = os.environ.get("VERIF_EVIDENCE_DIR") or os.path.join(VERIF, "evidence")
+    os.makedirs(evdir, exist_ok=True)
+    with open(os.path.join(evdir, f"{pid}.json"), "w") as f:
         json.dump(ev, f, indent=1, sort_keys=True)
 
     print(f"[{pid}] tier={tier} seed={seed} instances={n_inst} executions={agg.executions} "
